@@ -53,14 +53,27 @@ impl GLog {
 struct Dest {
     no: u64,
     log: GLog,
+    /// a test sink that panics on entries it considers invalid (ids divisible by 5), as the
+    /// documentation encourages test sinks to do
+    strict: bool,
+    /// no scheduling point inside append (runtime test sinks: the global may hold a plain lock here)
+    atomic: bool,
 }
+
+pub const STRICT_PANIC: &str = "harness: strict test sink rejects this entry";
 
 impl AnyEntrySink for Dest {
     fn append_any(&self, entry: impl Entry + Send + 'static) {
-        detsim::yield_point();
+        if !self.atomic {
+            detsim::yield_point();
+        }
         let mut seen = Seen::default();
         entry.write(&mut seen);
-        self.log.log(GK::Deliver { dest: self.no, id: seen.id.unwrap_or(u64::MAX) });
+        let id = seen.id.unwrap_or(u64::MAX);
+        self.log.log(GK::Deliver { dest: self.no, id });
+        if self.strict && id % 5 == 0 {
+            std::panic::panic_any(STRICT_PANIC);
+        }
     }
     fn flush_async(&self) -> FlushWait {
         FlushWait::ready()
@@ -123,7 +136,7 @@ fn g_ops(plan: &Value, tno: u64, ops: &[Value], log: &GLog, hist: &History, rts:
                             .build_boxed(s);
                         with_global!(g, G => G::attach((sink, handle)))
                     } else {
-                        with_global!(g, G => G::attach((BoxEntrySink::new(Dest { no: dest, log: log.clone() }), ())))
+                        with_global!(g, G => G::attach((BoxEntrySink::new(Dest { no: dest, log: log.clone(), strict: false, atomic: false }), ())))
                     }
                 });
                 match r {
@@ -164,7 +177,7 @@ fn g_ops(plan: &Value, tno: u64, ops: &[Value], log: &GLog, hist: &History, rts:
             }
             "tl_set" => {
                 let dest = ju(op, "dest", 0);
-                let sink = BoxEntrySink::new(Dest { no: dest, log: log.clone() });
+                let sink = BoxEntrySink::new(Dest { no: dest, log: log.clone(), strict: jb(op, "strict", false), atomic: false });
                 match catch(|| with_global!(g, G => G::set_test_sink(sink))) {
                     Ok(guard) => {
                         ts.tl_guard[gi] = Some(guard);
@@ -179,8 +192,14 @@ fn g_ops(plan: &Value, tno: u64, ops: &[Value], log: &GLog, hist: &History, rts:
             "with_tl" => {
                 let dest = ju(op, "dest", 0);
                 let id = ju(op, "id", 0);
-                let sink = BoxEntrySink::new(Dest { no: dest, log: log.clone() });
-                match catch(|| with_global!(g, G => G::with_test_sink(sink, || G::append(IdEntry(id))))) {
+                let sink = BoxEntrySink::new(Dest { no: dest, log: log.clone(), strict: false, atomic: false });
+                let panic_after = jb(op, "panic_after", false);
+                match catch(|| with_global!(g, G => G::with_test_sink(sink, || {
+                    G::append(IdEntry(id));
+                    if panic_after {
+                        std::panic::panic_any("harness: the closure given to with_test_sink panics");
+                    }
+                }))) {
                     Ok(()) => "ok".into(),
                     Err(p) => format!("panic:{p}"),
                 }
@@ -188,7 +207,7 @@ fn g_ops(plan: &Value, tno: u64, ops: &[Value], log: &GLog, hist: &History, rts:
             "rt_set" => {
                 let dest = ju(op, "dest", 0);
                 let r = ju(op, "rt", 0) as usize % rts.len().max(1);
-                let sink = BoxEntrySink::new(Dest { no: dest, log: log.clone() });
+                let sink = BoxEntrySink::new(Dest { no: dest, log: log.clone(), strict: jb(op, "strict", false), atomic: true });
                 let handle = rts[r].handle().clone();
                 // inside that very runtime's context the "current runtime" form is equivalent
                 let on_current = ts.rt_enter.as_ref().map(|(cur, _)| *cur == r as u64).unwrap_or(false);
@@ -354,6 +373,8 @@ fn candidates(changes: &[(u64, u64, Option<u64>)], inv: u64, ret: u64) -> BTreeS
 pub fn check_c17(plan: &Value, h: &[GEv], hist: &[Ev]) -> Option<Violation> {
     let _ = plan;
     let ops = parse_ops(h);
+    // destinations created as strict test sinks (they panic on ids divisible by 5 after recording the delivery)
+    let strict_dests: BTreeSet<u64> = ops.iter().filter(|o| matches!(o.name.as_str(), "tl_set" | "rt_set") && jb(&o.spec, "strict", false)).map(|o| ju(&o.spec, "dest", 0)).collect();
     // deliveries per entry id: direct destinations and queue-backed ones (stream no = dest)
     let mut delivered: BTreeMap<u64, Vec<(u64, u64)>> = BTreeMap::new();
     for e in h {
@@ -519,7 +540,8 @@ pub fn check_c17(plan: &Value, h: &[GEv], hist: &[Ev]) -> Option<Violation> {
                                         format!("entry {id} (global {g}, thread {t}, thread-local sink {tlv:?}, runtime {:?}) reached destination {d}; allowed by precedence: {allowed:?}", entered.get(&t).cloned().flatten()),
                                     ));
                                 }
-                                if op.outcome != "ok" {
+                                let expected_panic = (jb(&op.spec, "panic_after", false) && op.outcome.starts_with("panic:harness: the closure")) || (strict_dests.contains(d) && id % 5 == 0 && op.outcome.starts_with(&format!("panic:{STRICT_PANIC}")));
+                                if op.outcome != "ok" && !expected_panic {
                                     return Some(Violation::new("delivered_but_reported_failure", format!("entry {id} was delivered to {d} but the append reported {}", op.outcome)));
                                 }
                             }
@@ -618,14 +640,14 @@ pub fn gen_c17(rng: &mut Rng) -> Value {
                 }
                 4 => {
                     next_dest += 1;
-                    ops.push(json!({"op":"tl_set","g":g,"dest":next_dest}));
+                    ops.push(json!({"op":"tl_set","g":g,"dest":next_dest,"strict": rng.chance(0.2)}));
                 }
                 5 => ops.push(json!({"op":"tl_drop","g":g})),
                 6 => {
                     let id = next_id;
                     next_id += 1;
                     next_dest += 1;
-                    ops.push(json!({"op":"with_tl","g":g,"dest":next_dest,"id":id}));
+                    ops.push(json!({"op":"with_tl","g":g,"dest":next_dest,"id":id,"panic_after": rng.chance(0.3)}));
                 }
                 7 => ops.push(if rng.chance(0.6) { json!({"op":"enter","rt":rng.below(2)}) } else { json!({"op":"leave"}) }),
                 8 => ops.push(if rng.chance(0.5) { json!({"op":"is_attached","g":g}) } else { json!({"op":"sleep","ns": 1_000 * (1 + rng.below(100_000))}) }),
@@ -636,7 +658,7 @@ pub fn gen_c17(rng: &mut Rng) -> Value {
                 11 => ops.push(json!({"op":"detach","g":g,"in_panic": rng.chance(0.2)})),
                 12 => {
                     next_dest += 1;
-                    ops.push(json!({"op":"rt_set","g":g,"rt":rng.below(2),"dest":next_dest}));
+                    ops.push(json!({"op":"rt_set","g":g,"rt":rng.below(2),"dest":next_dest,"strict": rng.chance(0.3)}));
                 }
                 _ => ops.push(json!({"op":"rt_drop","g":g,"rt":rng.below(2)})),
             }
